@@ -187,6 +187,23 @@ static void c12_workload(uint64_t seed, int k, int rounds, Result& r) {
           r.pushi(Rm.offset(1)); r.pushi(Cm.offset(0)); r.pushi(D.offset(1)); r.pushi(D.offset(0) >= n + 5 ? 1 : 0);
           r.push(sum(Rm - Cm)); r.push(sum(D));
         }
+#ifdef HAVE_LAPACK
+        // linear algebra of this thread's own matrices (general and symmetric solve / inverse): whatever workspace the
+        // library keeps for LAPACK must be this call's own
+        {
+          int q = 2 + g.below(4);
+          Matrix G(q, q); SymmMatrix S(q); Vector rhs(q);
+          for (int i = 0; i < q; ++i) {
+            rhs(i) = g.val();
+            for (int j = 0; j < q; ++j) G(i, j) = (i == j ? 6.0 : 0.0) + g.val() * 0.3;
+            for (int j = 0; j <= i; ++j) S(i, j) = (i == j ? 6.0 : 0.0) + g.val() * 0.3;
+          }
+          Matrix Gi = inv(G); Vector sol = solve(G, rhs);
+          SymmMatrix Si = inv(S); Vector sol2 = solve(S, rhs);
+          Matrix Si2 = Si;
+          for (int i = 0; i < q; ++i) { r.push(sol(i)); r.push(sol2(i)); for (int j = 0; j < q; ++j) { r.push(Gi(i, j)); r.push(Si2(i, j)); } }
+        }
+#endif
         // misuse raised and caught inside this thread (three different sites): the exception, its class and its message with
         // the source location are this thread's own business — what() must read exactly as when the workload runs alone
         {
